@@ -420,6 +420,14 @@ func TestCheck(t *testing.T) {
 			prev6 = w
 		case 3: // hand-built name-bearing DHCPv6 messages (compressed, partial, nested)
 			w := named6(rng)
+			if rng.IntN(4) == 0 { // ... behind a long relay chain (up to 70 levels, 2.7 kB of headers)
+				for k := 20 + rng.IntN(50); k > 0; k-- {
+					h := make([]byte, 34)
+					h[0], h[1] = byte(12+rng.UintN(2)), byte(k)
+					copy(h[2:], gen4.Bytes(rng, 32))
+					w = append(h, tlv(9, w)...)
+				}
+			}
 			judge(r, "v6", w, prev6, rng, "")
 			prev6 = w
 		default: // generated DHCPv6 messages over every option type
